@@ -95,7 +95,82 @@ def gen_history(rng, xy):
     return steps
 
 
+def gen_eom_case(rng: random.Random):
+    """A Global Rydberg channel going through EOM mode one to three times
+    (possibly left in EOM mode, with non-zero detuning_off), next to another
+    channel (DMM, Local Rydberg or Raman) that may run longer, so that the EOM
+    channel is padded up to the sequence duration."""
+    dim3 = rng.random() < 0.2
+    n = rng.choice([1, 2, 2, 3])
+    pts = gen_atoms(rng, n, dim3)
+    n = len(pts)
+    names = rng.sample(ID_POOL, n)
+    atoms = [[names[i], pts[i]] for i in range(n)]
+    ids = [a[0] for a in atoms]
+    other = rng.choice(["dmm", "dmm", "dmm", "local", "raman", "none"])
+    ops = [dict(op="declare", name="ryd", id="rydberg_global")]
+    if other == "dmm":
+        ops.append(dict(op="detmap", dmm="dmm_0",
+                        weights=[[q, rng.choice([0.0, 0.25, 0.5, 1.0])] for q in ids]))
+    elif other == "local":
+        ops.append(dict(op="declare", name="rydl", id="rydberg_local", target=rng.choice(ids)))
+    elif other == "raman":
+        ops.append(dict(op="declare", name="ramg", id="raman_global"))
+    n_blocks = rng.choice([1, 2, 2, 2, 3])
+    leave_open = rng.random() < 0.65
+    for b in range(n_blocks):
+        if rng.random() < 0.4:
+            dur = rng.choice([8, 16, 24])
+            ops.append(dict(op="add", ch="ryd", dur=dur, amp=gen_wf(rng, AMPS[1:], dur),
+                            det=gen_wf(rng, DETS, dur, False), phase=rng.choice(PHASES),
+                            post=0.0, protocol=0))
+        ops.append(dict(op="enable_eom", ch="ryd", amp_on=rng.choice([2.0, 6.0, 9.0, 12.5]),
+                        det_on=rng.choice([0.0, 0.5, -1.5, 3.0]),
+                        opt_off=rng.choice([0.0, -3.0, -10.0, 5.0, -40.0]),
+                        correct=rng.random() < 0.3))
+        for _ in range(rng.choice([0, 1, 1, 2])):
+            if rng.random() < 0.3:
+                ops.append(dict(op="delay", dur=rng.choice([4, 10, 25]), ch="ryd"))
+            ops.append(dict(op="add_eom", ch="ryd", dur=rng.choice([8, 12, 20, 40]),
+                            phase=rng.choice(PHASES), post=rng.choice([0.0, 0.0, 0.5]),
+                            protocol=rng.choice([0, 0, 1]), correct=rng.random() < 0.3))
+        if rng.random() < 0.25:
+            ops.append(dict(op="delay", dur=rng.choice([4, 10, 25]), ch="ryd"))
+        if b < n_blocks - 1 or not leave_open:
+            ops.append(dict(op="disable_eom", ch="ryd", correct=rng.random() < 0.2))
+    # the other channel, often outlasting the EOM channel
+    long_dur = rng.choice([20, 60, 150, 300, 500])
+    if other == "dmm":
+        ops.append(dict(op="add_dmm", ch="dmm_0", dur=long_dur,
+                        det=gen_wf(rng, DETS[2:], long_dur, False, "neg")))
+    elif other in ("local", "raman"):
+        ch = "rydl" if other == "local" else "ramg"
+        for _ in range(rng.choice([1, 2])):
+            d = max(8, long_dur // 2)
+            ops.append(dict(op="add", ch=ch, dur=d, amp=gen_wf(rng, AMPS[1:], d, False),
+                            det=gen_wf(rng, DETS, d, False), phase=rng.choice(PHASES),
+                            post=0.0, protocol=rng.choice([0, 1])))
+    rate = 1.0 if rng.random() < 0.75 else rng.choice([0.5, 0.3, 0.8])
+    probes = [["frac", 0.0], ["frac", 1.0], ["frac", rng.random()],
+              ["tail", 0.0], ["tail", rng.random()], ["tail", rng.random()], ["tail", 1.0],
+              ["edge", rng.randint(0, 11), -1], ["edge", rng.randint(0, 11), 0]]
+    return dict(
+        level=rng.choice(LEVELS), c3=3700.0, xy=False, mag=None, atoms=atoms, extra_atoms=[],
+        bw=rng.choice([40.0, 15.0, 4.0]),
+        eom=dict(bw=rng.choice([40.0, 30.0, 10.0]),
+                 controlled=rng.choice([["BLUE"], ["BLUE"], ["BLUE", "RED"], ["RED"]]),
+                 limiting=rng.choice(["RED", "BLUE"]),
+                 buffer=rng.choice([None, None, 30])),
+        ops=ops, rate=rate, direct=rng.random() < 0.4, probes=probes,
+        profile="eom+" + other + ("+open" if leave_open else "") + f"+{n_blocks}blocks",
+        history=gen_history(rng, False) if rng.random() < 0.25 else [],
+        np_seed=rng.randrange(2**31),
+    )
+
+
 def gen_case(rng: random.Random, tier: str):
+    if rng.random() < 0.15:
+        return gen_eom_case(rng)
     xy = rng.random() < 0.3
     dim3 = rng.random() < 0.3
     profile = rng.choice(
@@ -257,7 +332,8 @@ def gen_case(rng: random.Random, tier: str):
     rate = 1.0 if rng.random() < 0.7 else rng.choice([0.5, 0.3, 0.8, 0.25, 0.9])
     probes = [["frac", 0.0], ["frac", 1.0], ["frac", rng.random()], ["frac", rng.random()],
               ["mask", -1], ["mask", 0], ["mask", 1],
-              ["edge", rng.randint(0, 7), -1], ["edge", rng.randint(0, 7), 0]]
+              ["edge", rng.randint(0, 7), -1], ["edge", rng.randint(0, 7), 0],
+              ["tail", rng.random()]]
     return dict(
         level=rng.choice(LEVELS), c3=rng.choice([3700.0, 3700.0, 1234.5]), xy=xy, mag=mag,
         atoms=atoms, extra_atoms=extra, bw=bw, ops=ops, rate=rate,
